@@ -369,7 +369,19 @@ def replay(case):
     return res.violations
 
 
-REPRODUCERS = {DET_SINGULAR: repro_det_singular}
+def repro_bool_derivative():
+    from nutils import evaluable as ev
+    a = ev.Argument('a', (ev.constant(3),), float)
+    f = ev.product(ev.Greater(a, ev.zeros_like(a)), 0)
+    try:
+        D = ev.derivative(f, a)
+        r = ev.eval_once(D, arguments=dict(a=numpy.array([1., 2., 3.])))
+    except Exception as e:
+        return True, f'derivative(all(a > 0), a) raised {type(e).__name__}: {e}'
+    return bool(numpy.asarray(r).any()), f'derivative(all(a > 0), a) = {numpy.asarray(r).tolist()}'
+
+
+REPRODUCERS = {DET_SINGULAR: repro_det_singular, 'C04-bool-int-expression-derivative-raises': repro_bool_derivative}
 
 
 def finalize(m, tier, seed):
